@@ -55,6 +55,14 @@ CHECKS = {
          "satisfying that input's condition; the same after C >> merged for concrete states C; no location written by neither input appears.",
     note="Bound: <=2 writes per map; 6 valuations; pointer registers do not overlap. Flags may be unknown. Known finding: overlapping writes inside one input map (KNOWN_FINDINGS.json).",
     design="DESIGN.md section 3, C19"),
+ "C03": dict(
+    category="model_checking",
+    technique="exhaustive enumeration of shipped specs and of a bounded synthetic format grammar x walking/all instruction words x endianness x tails, against an independent interpreter of the format language",
+    text="fix/mask/size/pfx of every shipped spec (~5600) and of every synthetic format (all compositions of LEN 8/16 into <=3 directives of every kind, both directions, overlap, (*) tails, +/&) "
+         "are compared with an independent parser; acceptance and every delivered field (int, Bits, bit string, attribute) are compared on the walking-1/walking-0 words (all 256 words for LEN 8), "
+         "both fetch endiannesses, with trailing bytes; every flipped fixed bit and truncation must be rejected. Extractors are bit selections and acceptance a conjunction of literals, so walking words decide them completely.",
+    note="Trusted: amc/ref/fmtlang.py written from the ispec docstring. The x86 ModRM macro is checked against the Intel meaning of /r and /digit.",
+    design="DESIGN.md section 3, C03"),
  "C08": dict(
     category="model_checking",
     technique="explicit-state exploration of write/copy/restruct/shift/merge histories on the real MemoryMap against a dict byte-store reference",
